@@ -200,6 +200,14 @@ def execute(plan):
     mutations = 0
     last_mut = None
     held_out = []
+    twin = {"ch": None, "snap": None}      # a second channel object initialised from the SAME antenna-count arrays (plain class only)
+
+    def twin_views(c2):
+        return (np.array(c2.big_H, copy=True), [np.array(c2.get_Hk(k_), copy=True) for k_ in range(c2.K)], [int(x) for x in c2.Nr], [int(x) for x in c2.Nt])
+
+    def twin_same(a, b):
+        return (a[0].shape == b[0].shape and np.array_equal(a[0], b[0]) and len(a[1]) == len(b[1])
+                and all(x.shape == y.shape and np.array_equal(x, y) for x, y in zip(a[1], b[1])) and a[2] == b[2] and a[3] == b[3])
     reads_since = []
 
     def viol(inv, step, detail, **sig):
@@ -330,6 +338,13 @@ def execute(plan):
                             ch.init_from_channel_matrix(handed, Nr, Nt, K, nte_arg)
                         else:
                             ch.init_from_channel_matrix(handed, Nr, Nt, K)
+                            if twin["ch"] is None and sd_ % 4 == 0:
+                                # a second channel (another cell with the same antenna configuration) is initialised from the very
+                                # same Nr / Nt array objects; from now on nothing done to `ch` may show in it
+                                c2 = MultiUserChannelMatrix()
+                                c2.init_from_channel_matrix(np.array(handed, copy=True) * 2.0, Nr, Nt, K)
+                                twin["ch"], twin["snap"] = c2, twin_views(c2)
+                                bump(res["probes"], "second_channel_shares_the_antenna_count_arrays")
                         m.raw = M
                         m.handed = handed
                     if kind == "randomize":
@@ -549,6 +564,16 @@ def execute(plan):
         except Exception as e:
             viol("op_raises", step, "%s raised %s: %s" % (kind, type(e).__name__, str(e)[:200]), op=kind, exc=type(e).__name__)
             break
+        if twin["ch"] is not None and res["status"] == "ok":
+            try:
+                now_ = twin_views(twin["ch"])
+                same_ = twin_same(now_, twin["snap"])
+            except Exception as e_:     # noqa: BLE001
+                same_ = False
+                now_ = "reading it raised %s: %s" % (type(e_).__name__, e_)
+            if not same_:
+                viol("views", step, "an operation on one channel object (%s) changed ANOTHER channel object that was initialised from the same antenna-count arrays: Nr %s -> %s" % (
+                    kind, twin["snap"][2], now_[2] if isinstance(now_, tuple) else now_), view="twin")
         log.add(kind, {k: v for k, v in op.items() if k != "op"})
         # after every MUTATION the two primary views are re-derived (reads populate caches, which is the point)
         if kind in ("randomize", "init", "set_pathloss") and res["status"] == "ok" and m.pl_valid:
